@@ -12,6 +12,10 @@ Known ==
   \/ "H2LibraryErrorInBody" \in Accept /\ Tr.stage \in {"h2-frames", "h2-hpack", "h2-preface"} /\ Tr.mod # "httpcore" /\ Tr.cls \in {"ProtocolError", "FrameTooLargeError", "FlowControlError", "InvalidBodyLengthError", "StreamClosedError", "NoSuchStreamError", "InvalidSettingsValueError", "FrameDataMissingError", "DenialOfServiceError"} /\ ~Tr.hang
   \/ "PeerErrorReportedLocal" \in Accept /\ Tr.stage \in {"h2-frames", "h2-hpack", "h2-preface", "h2-status"} /\ Tr.cls = "LocalProtocolError" /\ ~Tr.hang
   \/ "StatusNotNumeric" \in Accept /\ Tr.stage = "h2-status" /\ Tr.cls = "ValueError" /\ ~Tr.hang
+  \* HTTP/2: a body that does not match the caller's own Content-Length is not noticed locally (the h2
+  \* library does not count outbound bytes); the SERVER rejects it and the caller is told the peer erred
+  \/ "H2BodyLengthLeftToPeer" \in Accept /\ Tr.stage = "request" /\ Tr.cause = "invalid-request"
+        /\ Tr.cls = "RemoteProtocolError" /\ Tr.mod = "httpcore" /\ ~Tr.hang
 Judge ==
   \/ /\ ~Tr.hang
      /\ Tr.cls \in Allowed(Tr.stage, Tr.cause)
